@@ -144,6 +144,7 @@ fn run_grstate_case(l: &[Val]) -> Val {
 
 // ------------------------------------------------- C11: deferral slice of the RIB
 // ops: [0,f] start_deferral | [1,f,net,peer,pid,filtered] insert | [2,f] end_deferral
+//      | [3,f,net,peer,pid] remove | [4,f,peer] drop
 // public API of rustybgp-table only; every insert carries a fresh attribute block.
 fn tab_net(n: u32) -> rustybgp_packet::Nlri {
     rustybgp_packet::Nlri::V4(rustybgp_packet::bgp::Ipv4Net {
@@ -236,6 +237,23 @@ fn run_tab_case(l: &[Val]) -> Val {
             }
             2 => {
                 let ch = t.end_deferral(f);
+                Val::L(vec![Val::n(2u8), changes_val(&ch)])
+            }
+            3 => {
+                let peer = o[3].u8();
+                let src = srcs.entry(peer).or_insert_with(|| tab_source(peer)).clone();
+                let (ch, _) = t.remove(src, f, tab_net(o[2].u32()), o[4].u32(), None);
+                match ch {
+                    None => Val::L(vec![Val::n(0u8)]),
+                    Some(c) => Val::L(vec![
+                        Val::n(1u8),
+                        tab_net_val(&c.net),
+                        Val::us(c.current_paths.len()),
+                    ]),
+                }
+            }
+            4 => {
+                let (ch, _) = t.drop(IpAddr::V4(std::net::Ipv4Addr::new(10, 0, 0, o[2].u8())), f);
                 Val::L(vec![Val::n(2u8), changes_val(&ch)])
             }
             x => panic!("verif: bad table op {}", x),
